@@ -115,7 +115,7 @@ bool op_resize() {
     if (d->fixC >= 0) n = d->fixC;
     if (v == 3) { if (d->fixR > 1 || d->fixC > 1 || (d->fixR == 1 && d->fixC == 1)) v = 0; }
     if (v == 3) { m = d->fixR == 1 ? 1 : 0; n = d->fixC == 1 ? 1 : 0; if (shapeOf(d->kind) == 0 && d->fixR < 0 && d->fixC < 0) { m = 0; n = 0; } }
-    if (v == 3 && !d->canClear) v = 0;
+    if (v == 3 && (!d->canClear || (shapeOf(d->kind) == 0 && (d->fixR >= 0 || d->fixC >= 0)))) v = 0;   // Matrix_ handles with an inherited 1-d commitment: clear() result not modelled
     bool reshape1d = v != 3 && d->kind == MO && m > 1 && n > 1 && lib1d(*d);
     if (reshape1d && !r.coin(0.15)) { if (r.coin()) m = 1; else n = 1; reshape1d = false; }
     bool same = (m == d->nr && n == d->nc);
